@@ -104,3 +104,58 @@ def diagnose(tr):
     if tr["jac"] and tr["jac"] != [ps[1], 0, 0, ps[1]]:
         return (len(ev), "jacobian() gives %s, expected %s  %s" % (tr["jac"], [ps[1], 0, 0, ps[1]], tr.get("jac_error", "")))
     return None
+
+
+def diagnose_fwd(tr):
+    """mirror of FwdAbs/TraceFwd: None if the recorded forward pass is a behaviour of the abstract forward spec, else (event index, reason)"""
+    args = tr["args"]
+    n = len(args)
+    reach = {1}
+    for k in range(2, n + 1):
+        if any(s["p"] in reach for s in args[k - 1]):
+            reach.add(k)
+    boxed = {k: [j + 1 for j, s in enumerate(args[k - 1]) if s["p"] in reach] for k in range(1, n + 1)}
+    tan = {k: (1 if k == 1 else 0) for k in range(1, n + 1)}
+    applied = set()
+
+    def complete(p):
+        return p == 1 or all((p, j) in applied for j in boxed[p])
+    evs = tr.get("fevents", [])
+    if tr.get("opaque"):
+        if evs:
+            return (0, "JVP applications logged in an opaque trace")
+        for k in range(2, n + 1):
+            for j in boxed[k] if k in reach else []:
+                s = args[k - 1][j - 1]
+                tan[k] += weight(k, j, s["kd"]) * tan[s["p"]]
+                applied.add((k, j))
+    for i, e in enumerate(evs):
+        k, j = e["n"], e["j"]
+        if not (1 <= k <= n) or not (1 <= j <= len(args[k - 1])):
+            return (i, "JVP application for a position that does not exist: node %d position %d" % (k, j))
+        if k not in reach or j not in boxed[k]:
+            return (i, "JVP rule applied for node %d position %d, which does not hold a traced value" % (k, j))
+        if (k, j) in applied:
+            return (i, "JVP rule of node %d position %d applied twice" % (k, j))
+        p = args[k - 1][j - 1]["p"]
+        if not complete(p):
+            return (i, "JVP rule of node %d position %d applied before the tangent of node %d was complete" % (k, j, p))
+        if e["g"] != tan[p] or e["g2"] != 2 * tan[p]:
+            return (i, "JVP rule of node %d position %d applied to tangent (%s, %s), complete tangent of node %d is (%d, %d)" %
+                    (k, j, e["g"], e["g2"], p, tan[p], 2 * tan[p]))
+        applied.add((k, j))
+        tan[k] += weight(k, j, args[k - 1][j - 1]["kd"]) * tan[p]
+    live = {n}
+    for k in range(n, 0, -1):
+        if k in live:
+            live |= {s["p"] for s in args[k - 1] if s["p"] > 0}
+    for k in sorted(live & reach):
+        if not complete(k):
+            return (len(evs), "the forward pass returned before every differentiated position of node %d had been applied" % k)
+    res = tan[n] if n in reach else 0
+    if tr["jvp"] != res or tr["jvp2"] != 2 * res:
+        return (len(evs), "forward mode returned (%s, %s), J v is (%d, %d)%s" % (tr["jvp"], tr["jvp2"], res, 2 * res,
+                                                                              " [" + tr["fwd_error"] + "]" if tr.get("fwd_error") else ""))
+    if not tr.get("fwd_intact"):
+        return (len(evs), "the caller's tangent or input was modified by the forward pass")
+    return None
